@@ -12,6 +12,7 @@ from checks import c01 as base
 PROP = "C02"
 REQ_PROPS = ["GV.Props.Props_C02"]
 REQ_RUN = ["GV.Mvcc.Run"]
+BINS = ["c01"]
 CLASSES = {1: "C02-K1", 2: "C02-K2", 4: "C02-K4", 5: "C02-K5"}
 
 
